@@ -363,6 +363,11 @@ def main(argv=None):
     )
     if total.counters:
         print("  counters:", dict(total.counters))
+    if total.viol_count:
+        print("  violation classes (signature: instances):")
+        for k, n in sorted(total.viol_count.items(), key=lambda kv: -kv[1])[:40]:
+            tag = "known" if match_known(prop, json.loads(k), known) is not None else "NEW"
+            print(f"    [{tag}] {k}: {n}")
     if not a.replay and not a.no_evidence:
         os.makedirs(os.path.join(VERIF, "evidence"), exist_ok=True)
         evp = os.path.join(VERIF, "evidence", f"{prop}.json")
